@@ -153,6 +153,10 @@ func check(tb ev.TB, c wsim.Case) (labels []string, nontrivial bool) {
 		}
 	}
 	// every accepted message was scheduled without further input
+	if len(res.Unsent) > 0 && res.MaxJitter > 500*time.Millisecond {
+		ev.Inconclusive("unsent_on_a_late_machine")
+		return labels, false
+	}
 	if len(res.Unsent) > 0 {
 		sort.Slice(res.Unsent, func(i, j int) bool { return res.Unsent[i].String() < res.Unsent[j].String() })
 		fail("c08/never-flushed", "%d accepted messages (first %v) were not sent within %d ms after the last call returned, without further input (BatchTimeout %d ms)", len(res.Unsent), res.Unsent[0], c.SettleMs, c.BatchTimeoutMs)
@@ -177,6 +181,10 @@ func check(tb ev.TB, c wsim.Case) (labels []string, nontrivial bool) {
 		}
 		if late := p.At.Sub(open) - bt; late > lateSlack {
 			if c.StrictLateMs > 0 && late > time.Duration(c.StrictLateMs)*time.Millisecond {
+				if res.MaxJitter > 150*time.Millisecond {
+					ev.Inconclusive("late_flush_on_a_late_machine") // the machine itself overslept by that much during the scenario
+					continue
+				}
 				fail("c08/held-beyond-batch-timeout", "message %v was accepted %v before the produce request carrying it reached the (healthy, idle) broker; BatchTimeout is %d ms and the batch was opened no later than the acceptance of its first message", id, p.At.Sub(open), c.BatchTimeoutMs)
 				return
 			}
@@ -187,7 +195,7 @@ func check(tb ev.TB, c wsim.Case) (labels []string, nontrivial bool) {
 	if c.BatchTimeoutMs >= 10000 {
 		labels = append(labels, "full_batch_no_timer")
 		for _, call := range res.Calls {
-			if d := call.Returned.Sub(call.Started); d > 3*time.Second && !c.Async {
+			if d := call.Returned.Sub(call.Started); d > 3*time.Second && !c.Async && res.MaxJitter < 500*time.Millisecond {
 				fail("c08/full-batch-waited-for-timer", "call %v filled its batches exactly but took %v (BatchTimeout %d ms): the full batch was not closed when it became full", call.ID, d, c.BatchTimeoutMs)
 				return
 			}
